@@ -41,6 +41,8 @@ Definition uc_table : list uc_entry :=
   ; (201,  (true,  false, [233],  [201],  false))      (* É *)
   ; (223,  (false, true,  [223],  [83;83], false))     (* ß -> SS *)
   ; (453,  (false, false, [454],  [452],  false))      (* ǅ titlecase *)
+  ; (454,  (false, true,  [454],  [452],  false))      (* ǆ *)
+  ; (452,  (true,  false, [454],  [452],  false))      (* Ǆ *)
   ; (20013,(false, false, [20013],[20013],false))      (* 中 *)
   ; (1078, (false, true,  [1078], [1046], false))      (* ж *)
   ; (1046, (true,  false, [1078], [1046], false))      (* Ж *)
